@@ -5,6 +5,7 @@ d=$1
 git -C /tmp/base diff --quiet || { echo "/tmp/base not clean"; exit 2; }
 git -C /tmp/base apply "$d" || exit 2
 cd /verif
+mkdir -p /tmp/baseout && cp /verif/known_findings.json /tmp/baseout/
 for p in $(python3 -c "import json;print(' '.join(c['property_id'] for c in json.load(open('/verif/MANIFEST.json'))['checks']))"); do
   bin/jsonsa check -property $p -repo /tmp/base -verif /tmp/baseout 2>&1 | grep -E "^  violation|^UNDECIDED" | sed 's/^UNDECIDED property=C[0-9]* /UNDECIDED /' | cut -c1-${W:-260}
 done | sort | uniq -c | sort -rn
